@@ -23,6 +23,8 @@ func main() {
 		cmdResp()
 	case "flood":
 		cmdFlood()
+	case "prio":
+		cmdPrio()
 	default:
 		fmt.Fprintln(os.Stderr, "unknown subcommand", os.Args[1])
 		vh.Flush()
